@@ -77,6 +77,10 @@ Universe(tier) ==
   { s \in { [mode |-> "ann", ret |-> t, style |-> d[1], ndoc |-> d[2], named |-> d[3], body |-> <<>>] : t \in AnnTerms(tier), d \in DocShapes }
       : s.ndoc <= Len(P!ExpectedResults(s.ret)) }
   \cup { [mode |-> "inf", ret |-> NoTerm, style |-> "PLAINTEXT", ndoc |-> 0, named |-> FALSE, body |-> b] : b \in Bodies(tier) }
+  \* inferred results of a function whose docstring documents one result (the description must not change what is inferred)
+  \cup { [mode |-> "inf", ret |-> NoTerm, style |-> d[1], ndoc |-> 1, named |-> d[3], body |-> b]
+         : d \in { <<"GOOGLE", 1, FALSE>>, <<"REST", 1, FALSE>>, <<"NUMPYDOC", 1, FALSE>>, <<"NUMPYDOC", 1, TRUE>> },
+           b \in B0(1..NLeaf) \cup Conds(IF tier = "quick" THEN {1, 3, 5, 6, 7, 9} ELSE 1..NLeaf) }
 
 (* ---------- what the statement determines ---------- *)
 DocNames == <<"alpha", "beta", "gamma">>
